@@ -91,6 +91,9 @@ def run(ck, tier):
     _run(ck, tier)
     add_always(ck, facts.load(), "R-C15-merged")
     _twin_automata(ck, facts.load())
+    ck.rule("R-C15-bound", "every fuzzy result lies within the requested bound: the Levenshtein automaton the FST back-end runs is built for exactly the requested distance - the per-thread cache of automaton builders is looked up by equality with it, never by 'large enough'")
+    from . import c05
+    c05.builders_keyed(ck, facts.load(), "R-C15-bound")
 
 
 def _run(ck, tier):
